@@ -150,6 +150,12 @@ def build_gen(origin, args, env):
     return o[a if len(a) != 1 else a[0]]
 
 
+def _normalize(t, fn):
+    from .api import normalize_type
+
+    return normalize_type(t, fn)
+
+
 def build_ann(s, env, spelling=None, preds=None):
     """Real annotation object for spec `s`.
 
@@ -187,13 +193,13 @@ def build_ann(s, env, spelling=None, preds=None):
             except TypeError:
                 return typing.Union[tuple(members)]
         if how == "ovld":
-            return T.Union[tuple(T.normalize_type(m, None) for m in members)]
+            return T.Union[tuple(_normalize(m, None) for m in members)]
         return typing.Union[tuple(members)]
     if k == "inter":
         # Intersection[...] does not normalise its arguments: nested unions are written with ovld's own Union
         amp = sp.get("inter") == "amp"
         inner_sp = {"union": "ovld", "inter": "amp"} if amp else {"union": "ovld"}
-        members = [T.normalize_type(build_ann(x, env, inner_sp, preds), None) for x in s[1]]
+        members = [_normalize(build_ann(x, env, inner_sp, preds), None) for x in s[1]]
         if amp:
             # the `A & B` spelling (ovld's types define & / reflected &)
             try:
